@@ -176,6 +176,50 @@ theorem poisson_gap_bound (n : ℕ) (A' : List (List ℝ)) (base' w b lb : List 
   unfold poissonGrad at hm' ⊢
   linarith
 
+/-- Tangent inequality in intensity space: with `g` the gradient at `x`, `obj(x) + (g·y − g·x) ≤ obj(y)` for any two intensity
+    vectors with positive predicted capture (no bounds involved). -/
+theorem poisson_tangent_x (n : ℕ) (A' : List (List ℝ)) (base' w b x y : List ℝ)
+    (hA : ∀ r ∈ A', r.length = n) (hbase : base'.length = A'.length) (hwl : w.length = A'.length)
+    (hbl : b.length = A'.length) (hyx : y.length = x.length)
+    (hw : ∀ v ∈ w, 0 ≤ v) (hb : ∀ v ∈ b, 0 ≤ v)
+    (hpx : ∀ v ∈ totalCapture A' base' x, 0 < v) (hpy : ∀ v ∈ totalCapture A' base' y, 0 < v) :
+    poissonObj w b (totalCapture A' base' x)
+      + (dot (poissonGrad n A' w b (totalCapture A' base' x)) y - dot (poissonGrad n A' w b (totalCapture A' base' x)) x)
+      ≤ poissonObj w b (totalCapture A' base' y) := by
+  have hlp : (totalCapture A' base' x).length = A'.length := by
+    simp [totalCapture, vadd, matVec, hbase]
+  have hlq : (totalCapture A' base' y).length = A'.length := by
+    simp [totalCapture, vadd, matVec, hbase]
+  have ht := poisson_tangent w b (totalCapture A' base' x) (totalCapture A' base' y)
+    (hwl.trans hbl.symm) (hbl.trans hlp.symm) (hlp.trans hlq.symm) hw hb hpx hpy
+  have hvs : vsub (totalCapture A' base' y) (totalCapture A' base' x) = matVec A' (vsub y x) := by
+    rw [Cert.matVec_vsub A' x y hyx]
+    unfold totalCapture
+    exact vsub_vadd_vadd _ _ _ (by simp [matVec, hbase]) (by simp [matVec, hbase])
+  rw [hvs, ← Cert.dot_linComb n (vsub y x) _ A' hA, Cert.dot_vsub_right _ _ _ hyx] at ht
+  unfold poissonGrad
+  linarith
+
+/-- **C07 (Poisson certificate, unbounded sources)**: when the gradient at dreye's answer `x̂` has a slightly negative entry on a
+    source without upper bound, the gap at `x̂` is infinite; the gap is then evaluated at a nearby in-bound point `x'`
+    (where it is finite, `m' = min_box g'·z`) and carried back by the tangent inequality at `x̂`:
+    `obj(x̂) ≤ obj(y) + (g·x̂ − g·x') + (g'·x' − m')` for every in-bound `y`. All three terms are rational. -/
+theorem poisson_shifted_gap_bound (n : ℕ) (A' : List (List ℝ)) (base' w b lb : List ℝ) (ub : List (Option ℝ))
+    (x x' y : List ℝ) (m : ℝ)
+    (hA : ∀ r ∈ A', r.length = n) (hbase : base'.length = A'.length) (hwl : w.length = A'.length)
+    (hbl : b.length = A'.length) (hxn : x'.length = n) (hxx : x'.length = x.length)
+    (hx : inBox lb ub x' = true) (hy : inBox lb ub y = true)
+    (hw : ∀ v ∈ w, 0 ≤ v) (hb : ∀ v ∈ b, 0 ≤ v)
+    (hpx : ∀ v ∈ totalCapture A' base' x, 0 < v) (hpx' : ∀ v ∈ totalCapture A' base' x', 0 < v)
+    (hpy : ∀ v ∈ totalCapture A' base' y, 0 < v)
+    (hm : boxMinLin (poissonGrad n A' w b (totalCapture A' base' x')) lb ub = some m) :
+    poissonObj w b (totalCapture A' base' x) ≤ poissonObj w b (totalCapture A' base' y)
+      + (dot (poissonGrad n A' w b (totalCapture A' base' x)) x - dot (poissonGrad n A' w b (totalCapture A' base' x)) x')
+      + (dot (poissonGrad n A' w b (totalCapture A' base' x')) x' - m) := by
+  have h1 := poisson_tangent_x n A' base' w b x x' hA hbase hwl hbl hxx hw hb hpx hpx'
+  have h2 := poisson_gap_bound n A' base' w b lb ub x' y m hA hbase hwl hbl hxn hx hy hw hb hpx' hpy hm
+  linarith
+
 /-- **C07 (in gamut, the Poisson optimum reproduces the target)**: the objective at `p = b` is not larger
     than at any other positive prediction (Gibbs' inequality). -/
 theorem poisson_min_at_target (w b p : List ℝ) (hl1 : w.length = b.length) (hl2 : b.length = p.length)
